@@ -32,7 +32,7 @@ RULE = (
     "(workload, angle class, input kind, chain length or key spelling, query kind)"
 )
 ASSUMPTIONS = ["rotations are unit quaternions / proper rotation matrices", "orientation equality is up to quaternion sign"]
-DECIDING = ["HomogeneousMatrix.invariant_checked", "HomogeneousMatrix.transform.checked", "HomogeneousMatrix.dot.checked", "HomogeneousMatrix.inv.checked", "TransformDict.transform.checked", "C18.mismatch_rejected", "C18.unregistered_rejected", "C18.roundtrips", "C18.chains", "C18.history_queries", "C18.call_forms_checked"]
+DECIDING = ["HomogeneousMatrix.invariant_checked", "HomogeneousMatrix.transform.checked", "HomogeneousMatrix.dot.checked", "HomogeneousMatrix.inv.checked", "TransformDict.transform.checked", "C18.mismatch_rejected", "C18.unregistered_rejected", "C18.roundtrips", "C18.chains", "C18.history_queries", "C18.call_forms_checked", "C18.refilled_buffers_checked"]
 JOBS = {"quick": 2, "thorough": 14}
 FRAMES = list(FrameID)
 
@@ -61,7 +61,8 @@ def rigid_ok(self) -> bool:
         return False
     r = m[:3, :3]
     ok = bool(np.abs(r.T @ r - np.eye(3)).max() < 1e-7 and abs(np.linalg.det(r) - 1.0) < 1e-7 and np.abs(m[3] - np.array([0, 0, 0, 1.0])).max() == 0.0)
-    ok = ok and bool(np.abs(m[:3, 3] - np.asarray(self.position, dtype=float)).max() <= ptol(self.position) * 1e-3 + 1e-12)
+    if not CALLER_REFILLS_BUFFER[0]:  # (the stored position may be the caller's own array; see the buffer workload)
+        ok = ok and bool(np.abs(m[:3, 3] - np.asarray(self.position, dtype=float)).max() <= ptol(self.position) * 1e-3 + 1e-12)
     ok = ok and bool(np.abs(r - rot_of(self.rotation)).max() < 1e-7)
     ok = ok and isinstance(self.src, FrameID) and isinstance(self.dst, FrameID)
     INV_COUNT[0] += 1
@@ -69,6 +70,7 @@ def rigid_ok(self) -> bool:
 
 
 INV_COUNT = [0]
+CALLER_REFILLS_BUFFER = [False]
 
 
 def install(taps: Taps, ctx: Ctx) -> None:
@@ -233,6 +235,24 @@ def run(ctx: Ctx) -> None:
                 ctx.check(np.abs(np.asarray(pk) - np.asarray(m.transform(p))).max() == 0.0, "C18/keyword_and_positional_transform_differ", dict(), "HomogeneousMatrix.transform")
                 ident = m.transform(inv) if False else inv.dot(m)
                 ctx.check(np.abs(np.asarray(ident.matrix) - np.eye(4)).max() <= ptol(t) * 10 and ident.src == src and ident.dst == src, "C18/inverse_times_matrix_not_identity", dict(mat=np.asarray(ident.matrix).tolist()), "HomogeneousMatrix.inv")
+                # a transform is a value: it keeps answering as built after the caller refills the array it passed in
+                if idx % 3 == 0:
+                    buf = np.array([float(v) for v in t])
+                    m_b = HomogeneousMatrix(buf, Quaternion(*q), src=src, dst=dst)
+                    want = (G.homogeneous(t, q) @ np.append(p, 1.0))[:3]
+                    y1 = np.asarray(m_b.transform(p), dtype=float)
+                    CALLER_REFILLS_BUFFER[0] = True
+                    try:
+                        buf += 7.25
+                        y2 = np.asarray(m_b.transform(p), dtype=float)
+                        y3 = np.asarray(m_b.transform(p, Quaternion(*q2))[0], dtype=float)
+                        y4 = np.asarray(m_b.inv().transform(want), dtype=float)
+                    finally:
+                        buf -= 7.25
+                        CALLER_REFILLS_BUFFER[0] = False
+                    ctx.count("C18.refilled_buffers_checked")
+                    tol_b = ptol(p, t) * 10
+                    ctx.check(max(np.abs(y1 - want).max(), np.abs(y2 - want).max(), np.abs(y3 - want).max(), np.abs(y4 - p).max()) <= tol_b, "C18/transform_follows_later_changes_of_the_callers_translation_array", dict(built=y1.tolist(), after_refill=[y2.tolist(), y3.tolist()], expected=want.tolist()), "HomogeneousMatrix.transform")
                 ang = 2 * math.acos(min(1.0, abs(q[0])))
                 ctx.case(("roundtrip", cls, kind), nontrivial=ang > 1e-3 and any(t), sample=dict(q=q, t=t, kind=kind) if idx < 3 else None)
 
